@@ -58,6 +58,11 @@ def gen_cases(rng, n, tier):
         ("dc", 3, 0, "S 1.3 0.1 0.2 0.05"), ("simplex", 3, 0, "S 1.3 0.1 0.2 0.05"), ("hybrid", 3, 0, "S 1.3 0.1 0.2 0.05"),
         ("dc", 3, 3, "E"), ("simplex", 3, 3, "E"), ("hybrid", 3, 3, "F"), ("dc", 3, 2, "F"),
         ("dc", 2, 0, "S 1.0 0 0 0"), ("simplex", 2, 0, "S 1.0 0 0 0"), ("dc", 2, 4, "E"), ("hybrid", 2, 3, "S 1.0 0 0 0"),
+        # deep octrees that stay cheap (a pruned root / a tiny solid in a big region): the per-level credit
+        # arithmetic (cells of a full sub-tree of 10..16 levels: beyond 2^31) is only exercised here
+        ("dc", 3, 10, "E"), ("simplex", 3, 11, "E"), ("hybrid", 3, 12, "F"), ("dc", 3, 16, "E"), ("dc", 2, 15, "E"),
+        ("simplex", 2, 20, "F"), ("dc", 3, 10, "S 0.004 0.3111 -0.2222 0.1333"), ("hybrid", 3, 11, "S 0.002 0.3111 -0.2222 0.1333"),
+        ("simplex", 3, 10, "S 0.004 -0.4111 0.2222 0.3333"), ("dc", 2, 16, "S 0.0002 0.3111 -0.2222 0"),
         # long renders: intermediate progress values
         ("dc", 3, 6, "D S 1.7 0 0 0 G 3.1 0.2"), ("simplex", 3, 5, "S 1.5 0.1 0 0"), ("hybrid", 3, 5, "U S 1.0 0.3 0 0 B -1 -1 -1 0.2 0.3 0.4"),
     ]
